@@ -29,6 +29,28 @@ import (
 //                closed=<Closed() at the end> reverted=<Closed() ever went back to false> listen=<result of Listen|-> maxms=<slowest Close>
 //   run in a child process: a panic in the library's reader goroutine cannot be recovered.
 
+// gateLogger: a caller-supplied logger that, at the log line containing `at`, lets another goroutine run `then` to
+// completion (or for at most 400 ms) before it returns: a Close that happens exactly while Listen is announcing itself
+type gateLogger struct {
+	at    string
+	then  func()
+	fired int32
+}
+
+func (g *gateLogger) hit(s string) {
+	time.Sleep(200 * time.Microsecond)
+	if g.then != nil && strings.Contains(s, g.at) && atomic.CompareAndSwapInt32(&g.fired, 0, 1) {
+		done := make(chan struct{})
+		go func() { g.then(); close(done) }()
+		select {
+		case <-done:
+		case <-time.After(400 * time.Millisecond):
+		}
+	}
+}
+func (g *gateLogger) Println(a ...interface{})            { g.hit(fmt.Sprint(a...)) }
+func (g *gateLogger) Printf(f string, a ...interface{}) { g.hit(fmt.Sprintf(f, a...)) }
+
 type yieldLogger struct{}
 
 func (yieldLogger) Println(...interface{})          { time.Sleep(200 * time.Microsecond) }
@@ -74,6 +96,11 @@ func wcChild(a []string) string {
 	// whatever window the library leaves open around it
 	copts := ws.ConnectionOptions{CloseDeadline: 150 * time.Millisecond, Logger: yieldLogger{}}
 	var handled int32
+	var gl *gateLogger
+	if scen == "logclose" {
+		gl = &gateLogger{at: "listening"}
+		copts.Logger = gl
+	}
 	if scen == "errwriters" {
 		// a ReadHandler that reports read errors to the caller of Listen but leaves the connection open
 		copts.ReadHandler = func(c ws.Connection, _ int, _ []byte, err error) error { return err }
@@ -254,6 +281,21 @@ func wcChild(a []string) string {
 		}
 		sort.Strings(ls)
 		extraListen = strings.Join(ls, "+")
+	case "logclose":
+		// one Close runs from start to end while Listen is at its "listening" log line (between whatever it tested
+		// and whatever it is about to set); then Listen goes on
+		cres := make(chan string, 1)
+		t0 := time.Now()
+		gl.then = func() { cres <- classifyErr(conn.Close()) }
+		startListen()
+		listen = true
+		select {
+		case r := <-cres:
+			results = append(results, r)
+		case <-time.After(3 * time.Second):
+			results = append(results, "hang")
+		}
+		maxms = time.Since(t0).Milliseconds()
 	case "listenclose":
 		// a Listen call arrives while a Close is waiting for the silent peer's reply: the first reader is still there
 		if !listen {
@@ -451,7 +493,11 @@ func init() {
 			case 5:
 				o.emit("C16", "WC", "listeners", itoa(int64(2+r.Intn(7))), "f", peers[r.Intn(2)], itoa(int64(i)))
 			case 7:
-				o.emit("C16", "WC", "listenclose", "1", "t", "silent", itoa(int64(i)))
+				if r.Bool() {
+					o.emit("C15", "WC", "logclose", "1", "f", []string{"echo", "silent"}[r.Intn(2)], itoa(int64(i)))
+				} else {
+					o.emit("C16", "WC", "listenclose", "1", "t", "silent", itoa(int64(i)))
+				}
 			case 4:
 				o.emit("C16", "WC", "errwriters", itoa(int64(2+r.Intn(6))), "t", []string{"sever", "sever", "echo", "silent"}[r.Intn(4)], itoa(int64(i)))
 			case 6:
